@@ -10,10 +10,20 @@ import Tdgl.Operators
 import Tdgl.Update
 import Tdgl.Runner
 import Tdgl.Adaptive
+import Tdgl.Handler
+import Tdgl.Options
+import Tdgl.Param
+import Tdgl.H5
+import Tdgl.Screening
+import Tdgl.Schedule
+import Tdgl.Fields
+import Tdgl.Units
+import Tdgl.Geometry
 
 open Tdgl
 
 instance : NatCast Float := ⟨Float.ofNat⟩
+instance : HSMul Float Float Float := ⟨(· * ·)⟩
 
 namespace Drv
 
@@ -74,6 +84,108 @@ def adaptLoop (o : AdaptOpts Float) (ds : Array Float) (refused : Array (Array F
       let st' := adaptAfter o stt i dt (ds.getD i 0)
       adaptLoop o ds refused n (i+1) st' (s!"{b dt}:{b st'.tentative}" :: acc)
 
+def parseFault (s : String) : Option Fault :=
+  if s == "error" then some .error else if s == "interrupt" then some .interrupt else none
+
+/-- `"a:b:kind"` triples for update faults (stage, index), `"j:kind"` pairs for writer faults -/
+def parseFaults (us ss : String) : Faults :=
+  let ul := (toks us).filterMap (fun t => match t.splitOn ":" with
+    | [a, i, k] => (parseFault k).map (fun f => (nat a, nat i, f))
+    | _ => none)
+  let sl := (toks ss).filterMap (fun t => match t.splitOn ":" with
+    | [j, k] => (parseFault k).map (fun f => (nat j, f))
+    | _ => none)
+  ⟨fun a i => (ul.find? (fun x => x.1 == a && x.2.1 == i)).map (·.2.2),
+   fun j => (sl.find? (fun x => x.1 == j)).map (·.2)⟩
+
+/-- existing files: tokens `serial:tmp` with serial `-` for none, tmp 0/1 -/
+def parseFS (s : String) : FS :=
+  let l := (toks s).filterMap (fun t => match t.splitOn ":" with
+    | [a, bb] => some ((if a == "-" then none else some (nat a) : Option Nat), bb == "1")
+    | _ => none)
+  fun n => if l.contains n then some {} else none
+
+def showSer : Option Nat → String
+  | none => "-"
+  | some k => toString k
+
+def showResult : SolveResult → String
+  | .solution => "solution"
+  | .noSolution => "none"
+  | .exception .error => "exc:error"
+  | .exception .interrupt => "exc:interrupt"
+  | .stuck => "stuck"
+
+def parseSolver (s : String) : SolverKind :=
+  if s == "superlu" then .superlu else if s == "umfpack" then .umfpack else if s == "pardiso" then .pardiso
+  else if s == "cupy" then .cupy else .unknown
+
+def showOptErr : OptErr → String
+  | .dtInitGtMax => "dt_init" | .terminalPsi => "terminal_psi" | .multiplier => "multiplier" | .drag => "drag"
+  | .stepSize => "step_size" | .tolerance => "tolerance" | .gpuNoCupy => "gpu" | .unknownSolver => "solver"
+  | .noUmfpack => "umfpack" | .noPardiso => "pardiso" | .cupyNeedsGpu => "cupy_gpu"
+
+/-- prefix-encoded expression trees: `( op l r )` with op index 0..4, leaves P2 P3 PT I F -/
+partial def parseTree : List String → Option (PExpr Float × List String)
+  | "(" :: op :: rest =>
+    match parseTree rest with
+    | none => none
+    | some (l, rest1) =>
+      match parseTree rest1 with
+      | none => none
+      | some (r, ")" :: rest2) =>
+        let o : BinOp := match nat op with | 0 => .add | 1 => .sub | 2 => .mul | 3 => .div | _ => .pow
+        some (.comp l o r, rest2)
+      | some _ => none
+  | "P2" :: rest => some (.leaf ⟨0, false, false⟩, rest)
+  | "P3" :: rest => some (.leaf ⟨1, true, false⟩, rest)
+  | "PT" :: rest => some (.leaf ⟨2, true, true⟩, rest)
+  | "I" :: rest => some (.num 3, rest)
+  | "F" :: rest => some (.num 1.25, rest)
+  | _ => none
+
+/-- the harness' leaf functions f2, f3, ft, in Python's evaluation order -/
+def paramEnv : Nat → Float → Float → Float → Float → Float
+  | 0, x, y, _, _ => 1.5 + 0.25 * x - 0.5 * y
+  | 1, x, y, z, _ => 2.0 + 0.1 * x * y + 0.3 * z
+  | _, x, _, z, t => 0.75 + 0.05 * x + 0.2 * t + 0 * z
+
+def floatOp : BinOp → Float → Float → Float
+  | .add, a, c => a + c | .sub, a, c => a - c | .mul, a, c => a * c | .div, a, c => a / c
+  | .pow, a, c => Float.pow a c
+
+def optS (s : String) : Option String := if s == "-" then none else some s
+def keysOf (s : H5.Store String) : String := ",".intercalate ((s.map (·.1)).toArray.qsort (· < ·)).toList
+def showOpt : Option String → String
+  | none => "None"
+  | some v => v
+
+/-- C14: encode a record with the model, list the keys it writes, decode it again and report the
+    optional fields -/
+def h5cmd : List String → String
+  | ["layer", cond] =>
+    let l : H5.LayerRec String := ⟨"ll", "xi", "d", "u", "g", "z0", optS cond⟩
+    let s := H5.encodeLayer l
+    match H5.decodeLayer s with
+    | some r => s!"keys={keysOf s} conductivity={showOpt r.conductivity}"
+    | none => "decode-failed"
+  | ["poly", name] =>
+    let p : H5.PolyRec String := ⟨optS name, "True", "pts"⟩
+    let s := H5.encodePoly p
+    match H5.decodePoly s with
+    | some r => s!"keys={keysOf s} name={showOpt r.name}"
+    | none => "decode-failed"
+  | ["opts", tp, out] =>
+    let o : H5.OptsRec String := ⟨optS tp, optS out, [("solve_time", "1"), ("dt_init", "2")]⟩
+    let s := H5.encodeOpts o
+    let r := H5.decodeOpts ["solve_time", "dt_init"] s
+    s!"keys={keysOf s} terminal_psi={showOpt r.terminalPsi} output_file={showOpt r.outputFile}"
+  | ["mesh", compress] =>
+    let m : H5.MeshRec String := ⟨"s", "e", "b", "a", "d", "em", "vf", "vs"⟩
+    let s := H5.encodeMesh (compress == "1") m
+    s!"keys={keysOf s} restorable={H5.isRestorable s}"
+  | _ => "bad-op"
+
 def step (st : St) (line : String) : St × String :=
   let secs := (line.trimAscii.toString.splitOn "|").map (fun s => s.trimAscii.toString)
   match secs with
@@ -133,6 +245,95 @@ def step (st : St) (line : String) : St × String :=
       match runStageOld (stubUpd (floats dts)) true (nat k) (f tEnd) (nat fuel) 0 0 0 [] [] with
       | none => (st, "fuel")
       | some e => (st, showRun (.done e.frames e.state))
+    | "h5" :: args, [] => (st, h5cmd args)
+    | ["kernA"], [jx, jy, area, sx, sy, cx, cy] =>
+      -- A_induced for every edge centre, both components, evaluated in a permuted outer order
+      let (jxA, jyA, aA, sxA, syA, cxA, cyA) := (floats jx, floats jy, floats area, floats sx, floats sy, floats cx, floats cy)
+      let n := aA.size
+      let m := cxA.size
+      let body : Nat → Float := fun idx =>
+        let i := idx / 2
+        kernelA n (if idx % 2 == 0 then fn jxA else fn jyA) (fn aA) (fn sxA) (fn syA) (cxA.getD i 0) (cyA.getD i 0)
+      -- reversed schedule on a garbage buffer: the result must not depend on either (C09)
+      let sched := (List.range (2 * m)).reverse
+      let out := runSchedule body sched (fun _ => 12345.678)
+      (st, outF (2 * m) out)
+    | ["screen", tol, maxIt], [errs] =>
+      -- replay of the screening loop on an observed error sequence (see harness/c13.py)
+      let e := floats errs
+      -- vector fields are scalars here: with alpha = beta = 1 the iterate counts the iterations, and the
+      -- error functional reads the observed error of that iteration
+      let phys : Float → Float := fun A => A
+      let kern : Float → Float := fun J => J + 1
+      let errOf : Float → Float → Float := fun _ A => e.getD (A.toUInt64.toNat - 1) 1e300
+      match screenLoop (1 : Float) (1 : Float) (f tol) (nat maxIt) phys kern errOf (e.size + 5) 0
+          (⟨0, 0⟩ : PolyakState Float) (0 : Float) none with
+      | .converged _ _ it _ => (st, s!"converged {it}")
+      | .failed it => (st, s!"failed {it}")
+      | .outOfFuel => (st, "fuel")
+    | ["bsz"], [pref, dx, dy, jx, jy] =>
+      let p := floats pref
+      (st, b (bsZ p.size (fn p) (fn (floats dx)) (fn (floats dy)) (fn (floats jx)) (fn (floats jy))))
+    | ["bsvec"], [pref, dx, dy, dz, jx, jy] =>
+      let p := floats pref
+      let r := bsVec p.size (fn p) (fn (floats dx)) (fn (floats dy)) (fn (floats dz)) (fn (floats jx)) (fn (floats jy))
+      (st, s!"{b r.1} {b r.2.1} {b r.2.2}")
+    | ["area2"], [xs, ys] =>
+      let (xa, ya) := (floats xs, floats ys)
+      let pts : List (Float × Float) := (List.range xa.size).map (fun i => (xa.getD i 0, ya.getD i 0))
+      (st, b (signedArea2 pts))
+    | ["affine", a, bb, c, d, tx, ty], [xs, ys] =>
+      let (xa, ya) := (floats xs, floats ys)
+      let pts : List (Float × Float) := (List.range xa.size).map (fun i => (xa.getD i 0, ya.getD i 0))
+      let T : Affine Float := ⟨f a, f bb, f c, f d, f tx, f ty⟩
+      (st, b (signedArea2 (pts.map T.apply)))
+    | ["tri"], [coords] =>
+      -- circumcentre, doubled area and the three doubled kite areas of one triangle
+      let c := floats coords
+      let (A, B, C) : (Float × Float) × (Float × Float) × (Float × Float) :=
+        ((c.getD 0 0, c.getD 1 0), (c.getD 2 0, c.getD 3 0), (c.getD 4 0, c.getD 5 0))
+      let O := circumcentre A B C
+      (st, s!"{b O.1} {b O.2} {b (triArea2 A B C)} {b (kite2 A B C)} {b (kite2 B C A)} {b (kite2 C A B)}")
+    | ["units", pi, mu0, phi0, lu, fu, cu, xi, lam, d, bb, ii, lt], [] =>
+      let c : Consts Float := ⟨f pi, f mu0, f phi0⟩
+      let u : UnitSys Float := ⟨f lu, f fu, f cu⟩
+      let n : Numbers Float := ⟨f xi, f lam, f d, f bb, f ii, f lt⟩
+      (st, s!"{b (bc2 c u n)} {b (a0 c u n)} {b (k0 c u n)} {b (aScale c u n)} {b (jScale c u n)} {b (screenScale c u n)} {b (terminalMb c u n)}")
+    | ["theta", pi, mu0, phi0, lu, fu, cu, xi, lam, d, bb], [coords] =>
+      let c : Consts Float := ⟨f pi, f mu0, f phi0⟩
+      let u : UnitSys Float := ⟨f lu, f fu, f cu⟩
+      let n : Numbers Float := ⟨f xi, f lam, f d, f bb, 0, 1⟩
+      let q := floats coords
+      (st, b (linkTheta c u n (q.getD 0 0) (q.getD 1 0) (q.getD 2 0) (q.getD 3 0) (q.getD 4 0) (q.getD 5 0)))
+    | ["param", x, y, z, t], [tree] =>
+      match parseTree (toks tree) with
+      | some (e, []) =>
+        let a : Args Float := ⟨f x, f y, some (f z), if e.td then some (f t) else none⟩
+        let v := match PExpr.eval paramEnv floatOp e a with
+          | .ok v => b v
+          | .error .typeError => "err:type"
+          | .error .attributeError => "err:attr"
+        (st, s!"td={if e.td then 1 else 0} {v}")
+      | _ => (st, "bad-tree")
+    | ["validate", dtInit, dtMax, tp, mult, drag, stepSize, tol, gpu, solver, hc, hu, hp], [] =>
+      let o : Opts Float := ⟨f dtInit, f dtMax, (if tp == "-" then none else some (f tp)), f mult, f drag,
+        f stepSize, f tol, gpu == "1", parseSolver solver, hc == "1", hu == "1", hp == "1"⟩
+      (st, match o.validate with | none => "ok" | some e => showOptErr e)
+    | ["curacc", relTol], [cur] =>
+      (st, toString (currentsAccepted (f relTol) (floats cur).toList))
+    | ["solvef", k, skip, tEnd, fuel], [dts, ufaults, sfaults, existing] =>
+      let sk : Option Float := if skip == "-" then none else some (f skip)
+      let fs0 := parseFS existing
+      match solveF (stubUpd (floats dts)) (parseFaults ufaults sfaults) (nat k) sk (f tEnd) (nat fuel) 0 fs0 with
+      | none => (st, "nofile")
+      | some (res, ser, fs') =>
+        let out := match fs' (ser, false) with
+          | some h => s!"frames=[{",".intercalate (h.frames.map toString)}] open={h.isOpen} partial={h.partialFrame}"
+          | none => "missing"
+        let tmp := match fs' (ser, true) with
+          | some _ => "tmp-present"
+          | none => "tmp-absent"
+        (st, s!"{showResult res} ser={showSer ser} {out} {tmp}")
     | ["adapt", dtInit, dtMax, adaptive, window, mult, maxRetries], [ds, refused] =>
       let o : AdaptOpts Float := ⟨f dtInit, f dtMax, adaptive == "1", nat window, f mult, nat maxRetries,
         1e-10, 0.5⟩
